@@ -52,7 +52,11 @@ func c12Check(c stage.Cfg) func(o *obs.Obs) string {
 func c12Scenarios(tier string) []e1lib.Scenario {
 	var out []e1lib.Scenario
 	add := func(c stage.Cfg, bound int) {
-		out = append(out, e1lib.Scenario{Name: stageName(c), Root: func() { stage.Scenario(c) }, Check: c12Check(c), Bound: bound, Sample: c})
+		var done []string
+		if !c.Cancel {
+			done = []string{"got-eof"}
+		}
+		out = append(out, e1lib.Scenario{Name: stageName(c), Root: func() { stage.Scenario(c) }, Check: c12Check(c), Bound: bound, Sample: c, RealDone: done})
 	}
 	var shapes [][]int
 	maxLen, maxIn := 2, 3
